@@ -4,7 +4,7 @@ import ast
 import z3
 
 from . import types as T
-from .types import Ty, Ref, NONE, sort_of, parse as ty
+from .types import AND, OR, Ty, Ref, NONE, sort_of, parse as ty
 from .source import SourceError, header_text, strip_docstring
 from .contract import Clause, Contract, Loop
 from .engine import (Engine, V, Py, NONE_V, mk_bool, mk_int, mk_str, Obligation, SymExc, Signal, ReturnSig,
@@ -201,7 +201,7 @@ class Verifier(Engine):
             for e in extra:
                 if e.get_id() not in guards:
                     self.st.pc.append(self._guarded(e, terms, is_and, extra))
-        return V(T.BOOL, z3.And(terms) if is_and else z3.Or(terms))
+        return V(T.BOOL, AND(terms) if is_and else OR(terms))
 
     def _guarded(self, fact, terms, is_and, extra):
         # A fact learned while evaluating operand k holds only under the guards of operands < k;
@@ -211,7 +211,7 @@ class Verifier(Engine):
             if e.get_id() == fact.get_id():
                 break
             gs.append(e)
-        return z3.Implies(z3.And(gs), fact) if gs else fact
+        return z3.Implies(AND(gs), fact) if gs else fact
 
     def ev_UnaryOp(self, n):
         v = self.ev(n.operand)
@@ -260,7 +260,7 @@ class Verifier(Engine):
             right = self.ev(rn)
             res.append(self.compare(op, left, right))
             left = right
-        return V(T.BOOL, z3.And(res) if len(res) > 1 else res[0])
+        return V(T.BOOL, AND(res) if len(res) > 1 else res[0])
 
     def compare(self, op, a, b):
         if isinstance(op, (ast.Eq, ast.Is)):
@@ -299,7 +299,7 @@ class Verifier(Engine):
             i = self.fresh("i", z3.IntSort())
             it = self.coerce(item, cont.ty.elem)
             n = self.seq_len(cont)
-            return z3.Exists([i], z3.And(i >= 0, i < n, self.seq_at(cont, i).t == it.t))
+            return z3.Exists([i], AND(i >= 0, i < n, self.seq_at(cont, i).t == it.t))
         if k == "str":
             return z3.Contains(cont.t, self.coerce(item, T.STR).t)
         raise Unsupported("`in` on %r" % (cont.ty,))
@@ -375,7 +375,7 @@ class Verifier(Engine):
         dk, ds, mk, ms = self.dict_keys(d.ty)
         self.hset(dk, z3.Store(self.hget(dk, ds), d.t, self.dict_dom(src)))
         self.hset(mk, z3.Store(self.hget(mk, ms), d.t, self.dict_map(src)))
-        self.set_card(d.t, self.card(src.t))
+        self.set_card(d, self.card(src))
 
     def ev_JoinedStr(self, n):
         parts = []
@@ -409,6 +409,7 @@ class Verifier(Engine):
                 if i < 0:
                     i += len(base.ty.args)
                 v = V(base.ty.args[i], T.tuple_get(base.ty, base.t, i))
+                self.assume_type(v)
                 return v
             raise Unsupported("non-constant tuple index")
         idx = self.ev_v(n.slice)
@@ -416,7 +417,7 @@ class Verifier(Engine):
             i = self.coerce(idx, T.INT).t
             ln = self.seq_len(base)
             i2 = z3.If(i < 0, i + ln, i)
-            self.oblige("IndexError: list index out of range", "safety", z3.And(i2 >= 0, i2 < ln))
+            self.oblige("IndexError: list index out of range", "safety", AND(i2 >= 0, i2 < ln))
             v = self.seq_at(base, i2)
             self.assume_type(v)
             return v
@@ -565,27 +566,43 @@ class Verifier(Engine):
         """forall/exists i in [0,len): body_fn(elem_i) as a z3 Bool."""
         i = self.fresh("q", z3.IntSort())
         n = self.seq_len(seqv)
+        is_dq = isinstance(seqv, V) and seqv.ty.kind == "deque"
         self.quant_depth += 1
+        self.bound_stack.append(i)
         mark = len(self.st.pc)
         try:
-            el = self.seq_at(seqv, i)
+            if is_dq:
+                # absolute positions lo <= i < hi: no arithmetic inside the array index (E-matching friendly)
+                el = V(seqv.ty.elem, z3.Select(self.seq_arr(seqv), i))
+            else:
+                el = self.seq_at(seqv, i)
             b = body_fn(el)
             extra = self.st.pc[mark:]
             del self.st.pc[mark:]
         finally:
             self.quant_depth -= 1
-        rng = z3.And(i >= 0, i < n)
+            self.bound_stack.pop()
+        if is_dq:
+            lo = self.seq_base(seqv)
+            rng = AND(i >= lo, i < lo + n)
+        else:
+            rng = AND(i >= 0, i < n)
         facts = self._elem_facts(el)
         if facts:
             # well-typed heap: every element of a container has the declared element type
-            self.assume(z3.ForAll([i], z3.Implies(rng, z3.And(*facts))))
+            self.assume_global(z3.ForAll([i], AND(*facts)))
         if universal:
-            return z3.ForAll([i], z3.Implies(z3.And(rng, *extra), b))
-        return z3.Exists([i], z3.And(rng, *extra, b))
+            return z3.ForAll([i], z3.Implies(AND(rng, *extra), b))
+        return z3.Exists([i], AND(rng, *extra, b))
 
     def _elem_facts(self, el):
         mark = len(self.st.pc)
-        self.assume_type(el, with_alloc=False)
+        prev = getattr(self, "_collecting", False)
+        self._collecting = True
+        try:
+            self.assume_type(el, with_alloc=False)
+        finally:
+            self._collecting = prev
         facts = self.st.pc[mark:]
         del self.st.pc[mark:]
         return facts
@@ -674,7 +691,7 @@ class Verifier(Engine):
             cname = cls.p[1]
             if isinstance(v, V) and v.ty.is_reflike:
                 t = v.t
-                return V(T.BOOL, z3.And(t != NONE, self.isinstance_term(t, cname)))
+                return V(T.BOOL, AND(t != NONE, self.isinstance_term(t, cname)))
             if isinstance(v, V) and v.ty.kind == "opt":
                 raise Unsupported("isinstance on optional value type")
             return mk_bool(False)
@@ -719,26 +736,24 @@ class Verifier(Engine):
     def materialize(self, src, kind):
         """list(x) / tuple(x) for the iterables we understand."""
         if isinstance(src, V) and src.ty.kind in ("list", "seq", "deque"):
-            out_t = Ty(kind, src.ty.elem)
+            out_t = self._out_type(kind, src.ty.elem)
             r = self.new_list(out_t, [])
             n = self.seq_len(src)
             key, srt = self.el_key(out_t)
             if src.ty.kind == "deque":
                 raise Unsupported("list(deque)")
             self.hset(key, z3.Store(self.hget(key, srt), r.t, self.seq_arr(src)))
-            lk = "$slen" if kind == "seq" else "$len"
-            self.hset(lk, z3.Store(self.hget(lk, z3.ArraySort(Ref, z3.IntSort())), r.t, n))
+            self.hstore(self.k_len(out_t), r.t, n)
             return r
         if isinstance(src, Py) and src.kind == "reversed":
             inner = src.p
             if isinstance(inner, Py) and inner.kind == "range" and len(inner.p) == 1:
                 n = inner.p[0].t
-                out_t = Ty(kind, T.INT)
+                out_t = self._out_type(kind, T.INT)
                 r = self.new_list(out_t, [])
-                lk = "$slen" if kind == "seq" else "$len"
-                self.hset(lk, z3.Store(self.hget(lk, z3.ArraySort(Ref, z3.IntSort())), r.t, z3.If(n >= 0, n, 0)))
+                self.hstore(self.k_len(out_t), r.t, z3.If(n >= 0, n, 0))
                 i = self.fresh("i", z3.IntSort())
-                self.assume(z3.ForAll([i], z3.Implies(z3.And(i >= 0, i < n), z3.Select(self.seq_arr(r), i) == n - 1 - i)))
+                self.assume(z3.ForAll([i], z3.Implies(AND(i >= 0, i < n), z3.Select(self.seq_arr(r), i) == n - 1 - i)))
                 return r
         if isinstance(src, Py) and src.kind == "mapped":
             fn, seq = src.p
@@ -748,18 +763,25 @@ class Verifier(Engine):
             n = self.seq_len(seqv)
             i = self.fresh("i", z3.IntSort())
             self.quant_depth += 1
+            self.bound_stack.append(i)
             try:
                 el = self.seq_at(seqv, i)
                 mv = self.call(fn, [el], {})
             finally:
                 self.quant_depth -= 1
-            out_t = Ty(kind, mv.ty)
+                self.bound_stack.pop()
+            out_t = self._out_type(kind, mv.ty)
             r = self.new_list(out_t, [])
-            lk = "$slen" if kind == "seq" else "$len"
-            self.hset(lk, z3.Store(self.hget(lk, z3.ArraySort(Ref, z3.IntSort())), r.t, n))
-            self.assume(z3.ForAll([i], z3.Implies(z3.And(i >= 0, i < n), z3.Select(self.seq_arr(r), i) == mv.t)))
+            self.hstore(self.k_len(out_t), r.t, n)
+            self.assume(z3.ForAll([i], z3.Implies(AND(i >= 0, i < n), z3.Select(self.seq_arr(r), i) == mv.t)))
             return r
         raise Unsupported("list()/tuple() of %r" % (src,))
+
+    def _out_type(self, kind, elem):
+        h = getattr(self, "_assign_hint", None)
+        if h is not None and h.kind == kind and sort_of(h.elem) == sort_of(elem):
+            return h
+        return Ty(kind, elem)
 
     def max_by_key(self, seq, keyfn):
         seqv = self.as_seq(seq)
@@ -770,14 +792,16 @@ class Verifier(Engine):
         kres = self.coerce(self.call(keyfn, [res], {}), T.INT)
         i = self.fresh("i", z3.IntSort())
         self.quant_depth += 1
+        self.bound_stack.append(i)
         try:
             el = self.seq_at(seqv, i)
             kel = self.coerce(self.call(keyfn, [el], {}), T.INT)
         finally:
             self.quant_depth -= 1
-        self.assume(z3.And(j >= 0, j < n))
+            self.bound_stack.pop()
+        self.assume(AND(j >= 0, j < n))
         # max() returns the FIRST maximal element
-        self.assume(z3.ForAll([i], z3.Implies(z3.And(i >= 0, i < n), z3.And(kel.t <= kres.t, z3.Implies(i < j, kel.t < kres.t)))))
+        self.assume(z3.ForAll([i], z3.Implies(AND(i >= 0, i < n), AND(kel.t <= kres.t, z3.Implies(i < j, kel.t < kres.t)))))
         self.assume_type(res)
         return res
 
@@ -814,7 +838,11 @@ class Verifier(Engine):
             if name == "clear":
                 dk, ds, mk, ms = self.dict_keys(obj.ty)
                 self.hset(dk, z3.Store(self.hget(dk, ds), obj.t, z3.K(sort_of(obj.ty.args[0]), z3.BoolVal(False))))
-                self.set_card(obj.t, z3.IntVal(0))
+                self.set_card(obj, z3.IntVal(0))
+                return NONE_V
+            if name == "pop" and len(args) == 2:
+                # dict.pop(key, default): only the removal is modelled (result unused in the code base)
+                self.dict_del(obj, args[0], strict=False)
                 return NONE_V
             if name == "copy":
                 d = self.new_dict(obj.ty)
@@ -834,7 +862,10 @@ class Verifier(Engine):
                 return V(T.STR, join_fn()(obj.t, self.seq_arr(seqv), self.seq_len(seqv)))
             if name == "format":
                 if z3.is_string_value(obj.t):
-                    return self.str_format(obj.t.as_string(), args, kwargs)
+                    try:
+                        return self.str_format(obj.t.as_string(), args, kwargs)
+                    except (IndexError, KeyError, Unsupported):
+                        pass
                 return V(T.STR, self.fresh("fmt", z3.StringSort()))
             if name == "split":
                 return self.call_ext("str.split", obj, args, kwargs)
@@ -919,6 +950,8 @@ class Verifier(Engine):
     def call_function(self, rel, qualname, selfv, args, kwargs, as_property=False, clsval=None):
         con = self.reg.contract_for(rel, qualname)
         short = qualname.split(".")[-1]
+        if short in NOOP_FUNCS and con is None:
+            return NONE_V
         cur = self.frame.contract
         want_inline = cur is not None and (qualname in cur.inline or short in cur.inline)
         fdef = None
@@ -1088,7 +1121,7 @@ class Verifier(Engine):
                 env["result"] = res
                 for cl in con.ensures:
                     self.assume(self.spec(cl.expr, env))
-                self.probes.append(("%s::state after call %s at `%s` is consistent" % (self.cur_func, label, site), list(self.st.pc)))
+                self.probes.append(("%s::state after call %s at `%s` is consistent" % (self.cur_func, label, site), list(self.st.glob) + list(self.st.pc)))
                 return res
             ename = outcomes[k]
             exact = not ename.endswith("+")
@@ -1146,31 +1179,32 @@ class Verifier(Engine):
     def havoc_container(self, tv):
         IntS = z3.IntSort()
         k = tv.ty.kind
+        rg = tv.ty.region
         if k in ("list", "deque"):
             key, srt = self.el_key(tv.ty)
             self.hset(key, z3.Store(self.hget(key, srt), tv.t, self.fresh("els", srt.range())))
             if k == "list":
                 n = self.fresh("len", IntS)
                 self.assume(n >= 0)
-                self.hset("$len", z3.Store(self.hget("$len", z3.ArraySort(Ref, IntS)), tv.t, n))
+                self.hstore(self.k_len(tv.ty), tv.t, n)
             else:
                 lo, hi = self.fresh("lo", IntS), self.fresh("hi", IntS)
                 self.assume(hi >= lo)
-                self.hset("$dlo", z3.Store(self.hget("$dlo", z3.ArraySort(Ref, IntS)), tv.t, lo))
-                self.hset("$dhi", z3.Store(self.hget("$dhi", z3.ArraySort(Ref, IntS)), tv.t, hi))
+                self.hstore("$dlo" + rg, tv.t, lo)
+                self.hstore("$dhi" + rg, tv.t, hi)
         elif k == "set":
             key, srt = self.set_key(tv.ty)
             self.hset(key, z3.Store(self.hget(key, srt), tv.t, self.fresh("mem", srt.range())))
             c = self.fresh("card", IntS)
             self.assume(c >= 0)
-            self.set_card(tv.t, c)
+            self.set_card(tv, c)
         elif k == "dict":
             dk, ds, mk, ms = self.dict_keys(tv.ty)
             self.hset(dk, z3.Store(self.hget(dk, ds), tv.t, self.fresh("dom", ds.range())))
             self.hset(mk, z3.Store(self.hget(mk, ms), tv.t, self.fresh("map", ms.range())))
             c = self.fresh("card", IntS)
             self.assume(c >= 0)
-            self.set_card(tv.t, c)
+            self.set_card(tv, c)
         else:
             raise Unsupported("havoc of %r" % (tv.ty,))
 
@@ -1214,7 +1248,7 @@ class Verifier(Engine):
                 extra = self.st.pc[mark + 1:]
             finally:
                 del self.st.pc[mark:]
-            return V(T.BOOL, z3.Implies(z3.And(p, *extra), q))
+            return V(T.BOOL, z3.Implies(AND(p, *extra), q))
         if name == "iff":
             return V(T.BOOL, self.truth(self.ev(a[0])) == self.truth(self.ev(a[1])))
         if name == "ite":
@@ -1227,12 +1261,15 @@ class Verifier(Engine):
             v = self.ev_v(a[0])
             h = self.old_heap if self.old_heap is not None else self.entry_heap
             return V(T.BOOL, z3.Not(z3.Select(h.get("$alloc", self._init_heap.get("$alloc", self.alloc_map())), v.t)))
+        if name == "allocated":
+            v = self.ev_v(a[0])
+            return V(T.BOOL, z3.Select(self.alloc_map(), v.t))
         if name == "typeis":
             v = self.ev_v(a[0])
             return V(T.BOOL, self.typeof(v.t) == self.class_id(a[1].id))
         if name == "instance":
             v = self.ev_v(a[0])
-            return V(T.BOOL, z3.And(v.t != NONE, self.isinstance_term(v.t, a[1].id)))
+            return V(T.BOOL, AND(v.t != NONE, self.isinstance_term(v.t, a[1].id)))
         if name == "unchanged":
             # unchanged('Cls.attr') or unchanged('Cls.attr', o1, o2 ...) = unchanged except at o1, o2
             key = a[0].value
@@ -1253,7 +1290,7 @@ class Verifier(Engine):
             s = self.ev_v(a[0])
             return V(T.BOOL, z3.InRe(s.t, rx.grammar(a[1].value)))
         if name == "card":
-            return V(T.INT, self.card(self.ev_v(a[0]).t))
+            return V(T.INT, self.card(self.ev_v(a[0])))
         if name == "is_none":
             v = self.ev_v(a[0])
             return V(T.BOOL, self.equal(v, NONE_V))
@@ -1264,7 +1301,37 @@ class Verifier(Engine):
             return V(v.ty.args[0], T.opt_val(v.ty, v.t))
         if name == "select":
             arr, idx = self.ev_v(a[0]), self.ev_v(a[1])
-            return V(arr.ty.elem, z3.Select(self.seq_arr(arr), self.seq_base(arr) + idx.t))
+            if arr.ty.kind == "arr":
+                return V(arr.ty.args[1], z3.Select(arr.t, self.coerce(idx, arr.ty.args[0]).t))
+            el = V(arr.ty.elem, z3.Select(self.seq_arr(arr), self.seq_base(arr) + idx.t))
+            facts = self._elem_facts(el)
+            if facts:
+                self.assume_global(AND(*facts))
+            return el
+        if name == "abs_select":
+            dq, idx = self.ev_v(a[0]), self.ev_v(a[1])
+            el = V(dq.ty.elem, z3.Select(self.seq_arr(dq), idx.t))
+            facts = self._elem_facts(el)
+            if facts:
+                self.assume_global(AND(*facts))
+            return el
+        if name == "lo":
+            return V(T.INT, self.seq_base(self.ev_v(a[0])))
+        if name == "hi":
+            dq = self.ev_v(a[0])
+            return V(T.INT, self.seq_base(dq) + self.seq_len(dq))
+        if name == "store":
+            arr, idx, val = self.ev_v(a[0]), self.ev_v(a[1]), self.ev_v(a[2])
+            return V(arr.ty, z3.Store(arr.t, self.coerce(idx, arr.ty.args[0]).t, self.coerce(val, arr.ty.args[1]).t))
+        if name == "const_arr":
+            t_ = ty(a[0].value)
+            val = self.coerce(self.ev_v(a[1]), t_.args[1])
+            return V(t_, z3.K(sort_of(t_.args[0]), val.t))
+        if name == "elems":
+            lv = self.ev_v(a[0])
+            return V(Ty("arr", T.INT, lv.ty.elem), self.seq_arr(lv))
+        if name == "lemma":
+            return V(T.BOOL, self.lemma_instance(a[0].value, [self.ev_v(x) for x in a[1:]]))
         if name in self.reg.logic.funcs:
             f, ats, rt = self.spec_func(name)
             args = [self.coerce(self.ev_v(x), at).t for x, at in zip(a, ats)]
@@ -1282,15 +1349,33 @@ class Verifier(Engine):
                     self.st.loc = saved
         return NotImplemented
 
+    def lemma_instance(self, name, args):
+        """The statement of a (separately proved) Lemma instantiated with `args` (positional, in `vars` order)."""
+        lem = next((l for l in self.reg.logic.lemmas if l.name == name), None)
+        if lem is None:
+            raise Unsupported("unknown lemma %s" % name)
+        names = list(lem.vars)
+        if len(args) != len(names):
+            raise Unsupported("lemma %s takes %d arguments" % (name, len(names)))
+        env = {n: self.coerce(v, lem.vars[n]) for n, v in zip(names, args)}
+        hyp = [self.spec(cl.expr, env) for cl in lem.requires]
+        con = [self.spec(cl.expr, env) for cl in lem.ensures]
+        self.lemmas_used.add(name)
+        return z3.Implies(AND(hyp) if hyp else z3.BoolVal(True), AND(con))
+
     def unchanged(self, key, h0, except_objs):
-        if key in ("list", "$len"):
-            keys = [k for k in set(list(self.st.heap) + list(h0)) if k == "$len" or k.startswith("$el:")]
+        allk = set(list(self.st.heap) + list(h0))
+        if key.startswith("region:"):
+            rg = "#" + key.split(":", 1)[1]
+            keys = [k for k in allk if k.startswith("$") and k.endswith(rg)]
+        elif key in ("list", "$len"):
+            keys = [k for k in allk if k.startswith("$len") or k.startswith("$el:")]
         elif key == "deque":
-            keys = [k for k in set(list(self.st.heap) + list(h0)) if k in ("$dlo", "$dhi") or k.startswith("$el:")]
+            keys = [k for k in allk if k.startswith("$dlo") or k.startswith("$dhi") or k.startswith("$el:")]
         elif key == "set":
-            keys = [k for k in set(list(self.st.heap) + list(h0)) if k.startswith("$set:")]
+            keys = [k for k in allk if k.startswith("$set:")]
         elif key == "dict":
-            keys = [k for k in set(list(self.st.heap) + list(h0)) if k.startswith("$dom:") or k.startswith("$map:")]
+            keys = [k for k in allk if k.startswith("$dom:") or k.startswith("$map:")]
         elif key == "containers":
             keys = [k for k in set(list(self.st.heap) + list(h0)) if k.startswith("$") and not k.startswith("$g:") and k not in ("$alloc",) and not k.startswith("$s")]
         else:
@@ -1309,8 +1394,8 @@ class Verifier(Engine):
                 out.append(new == old)
             else:
                 r = self.fresh("r", Ref)
-                out.append(z3.ForAll([r], z3.Implies(z3.And([r != o.t for o in except_objs]), z3.Select(new, r) == z3.Select(old, r))))
-        return z3.And(out) if out else z3.BoolVal(True)
+                out.append(z3.ForAll([r], z3.Implies(AND([r != o.t for o in except_objs]), z3.Select(new, r) == z3.Select(old, r))))
+        return AND(out) if out else z3.BoolVal(True)
 
     def in_heap(self, heap, node, loc=None):
         if heap is None:
@@ -1339,20 +1424,23 @@ class Verifier(Engine):
         self.st.loc = dict(saved)
         self.st.loc[vname] = xv
         self.quant_depth += 1
+        self.bound_stack.append(x)
         mark = len(self.st.pc)
         try:
             facts = []
             if t_.kind == "ref":
-                facts.append(z3.And(x != NONE, self.isinstance_term(x, t_.args[0])))
+                facts.append(AND(x != NONE, self.isinstance_term(x, t_.args[0])))
             b = self.truth(self.ev(body))
             extra = self.st.pc[mark:]
             del self.st.pc[mark:]
         finally:
             self.quant_depth -= 1
+            self.bound_stack.pop()
             self.st.loc = saved
         if universal:
-            return V(T.BOOL, z3.ForAll([x], z3.Implies(z3.And(*facts, *extra), b)))
-        return V(T.BOOL, z3.Exists([x], z3.And(*facts, *extra, b)))
+            pats = [self.typeof(x)] if t_.kind == "ref" else []
+            return V(T.BOOL, z3.ForAll([x], z3.Implies(AND(*facts, *extra), b), patterns=pats))
+        return V(T.BOOL, z3.Exists([x], AND(*facts, *extra, b)))
 
 
 def _split_top(s):
